@@ -2071,6 +2071,10 @@ func runCase(raw json.RawMessage) interface{} {
 			o = runBridgeStall(c)
 		case "bridge_startrace":
 			o = runBridgeStartRace(c)
+		case "mapping_stats":
+			o = runMappingStats(c)
+		case "bridge_hung_backend":
+			o = runBridgeHungBackend(c)
 		case "bridge_throttle":
 			o = runBridgeThrottle(c)
 		case "res_mgr":
